@@ -308,7 +308,14 @@ Definition compat (a b : val) : bool :=
   | _, VNull => nscalar a
   | _, _ => same_kind a b
   end.
-Definition cmp_data (eqne : bool) (a b : val) : bool := if eqne then compat a b else same_kind a b.
+(* two values Python can order: two ints, or two strings that are not Enum members *)
+Definition ord_kind (a b : val) : bool :=
+  match a, b with
+  | VInt _, VInt _ => true
+  | VStr x, VStr y => negb (is_enum x || is_enum y)
+  | _, _ => false
+  end.
+Definition cmp_data (eqne : bool) (a b : val) : bool := if eqne then compat a b else ord_kind a b.
 
 (* the chain can be followed on object o as the schema promises: every hop is a to-one relationship holding an
    object of the target type (never None), the end is a scalar column whose value may be None *)
@@ -538,6 +545,23 @@ Fixpoint has_inset (c : cond) : bool :=
   | CNot p => has_inset p
   | _ => false
   end.
+(* an ordering comparison one of whose operands is (on some object) an Enum member *)
+Definition operand_enum (sc : schema) (vars : list (Z * Z)) (w : world) (x : operand) : bool :=
+  match x with
+  | OAttr v ch => match assoc v vars with
+                  | Some c => existsb (fun o => match walk w o ch with Ok (VStr s) => is_enum s | _ => false end) (instances sc w c)
+                  | None => false
+                  end
+  | OLit (VStr s) => is_enum s
+  | _ => false
+  end.
+Fixpoint has_enum_order (sc : schema) (vars : list (Z * Z)) (w : world) (c : cond) : bool :=
+  match c with
+  | CCmp op l r => negb (eqne op) && (operand_enum sc vars w l || operand_enum sc vars w r)
+  | CAnd p q | COr p q => has_enum_order sc vars w p || has_enum_order sc vars w q
+  | CNot p => has_enum_order sc vars w p
+  | _ => false
+  end.
 Definition b2z (b : bool) (k : Z) : Z := if b then k else 0.
 Definition classes (sc : schema) (q : query) (w : world) : Z :=
   match q_cond q with
@@ -558,6 +582,7 @@ Definition classes (sc : schema) (q : query) (w : world) : Z :=
       + b2z (q_setof q) 2048
       + b2z (has_inset c) 4096
       + b2z (existsb (named_var sc (q_vars q)) ops) 8192
+      + b2z (has_enum_order sc (q_vars q) w c) 16384
   end.
 
 (* what the harness asks per case: [model; spec; [f07; classes]] *)
